@@ -106,6 +106,21 @@ pub mod verif {
         receiver.retry = Retry::new(max);
     }
 
+    /// Overwrite the receiver-local state an earlier batch may have left behind: retry counter and budget, current
+    /// retry back-off, current idle back-off (steps and caps stay the ones `bounded` configured).
+    pub fn set_receiver_history<T>(
+        receiver: &mut Receiver<T>,
+        retry_current: u32,
+        retry_max: u32,
+        retry_delay_current: Duration,
+        idle_delay_current: Duration,
+    ) {
+        receiver.retry.current = retry_current;
+        receiver.retry.max = retry_max;
+        receiver.retry_delay.current = retry_delay_current;
+        receiver.idle_delay.current = idle_delay_current;
+    }
+
     pub fn retry_state<T>(receiver: &Receiver<T>) -> (u32, u32) {
         (receiver.retry.current, receiver.retry.max)
     }
